@@ -110,6 +110,13 @@ def stats_by_name(coal, pops, sfs=True, shared=None):
         out['sfs.mean'] = coal.sfs.mean.data.tolist()
         for p in pops:
             out[f'sfs.demes[{p}].mean'] = coal.sfs.demes[p].mean.data.tolist()
+        # the covariance matrices ACROSS DEMES of the spectrum (one vector of bins per pair of demes), read by the names of their axes
+        for nm_, dd_ in (('sfs', coal.sfs), ('fsfs', coal.fsfs)):
+            names_ = list(dd_.demes)
+            cm_ = np.array(dd_.demes.cov, dtype=float)
+            for (i, p), (j, q) in itertools.product(enumerate(names_), repeat=2):
+                if p in pops and q in pops:
+                    out[f'{nm_}.demes.cov_matrix[{p},{q}]'] = np.nan_to_num(cm_[j, i], nan=-7.0).tolist()
     return out
 
 
@@ -761,6 +768,18 @@ def oracle_routes(case):
             for g_, a_ in zip(cyc, acc):
                 checks.append((f'accumulate(k={k_}, {"tree height" if dd is d else "total branch length"}) at the end times {cyc} (as given): entry of {g_} vs moment(end_time={g_})',
                                float(a_), dd.moment(k_, end_time=g_), 1e-10))
+    # composite rewards whose component lists are PREFIXES of one another, asked of ONE Coalescent at increasing end times (nothing kept
+    # from the shorter reward may be continued for the longer one): E[SumReward([H, L])] = E[H] + E[L], E[SumReward([H])] = E[H]
+    c_seq = build.coalescent(spec)
+    s1_, s2_ = R.SumReward([R.TreeHeightReward()]), R.SumReward([R.TreeHeightReward(), R.TotalBranchLengthReward()])
+    v1_ = c_seq.moment(1, (s1_,), end_time=T)
+    v2_ = c_seq.moment(1, (s2_,), end_time=2 * T + 0.5)
+    v3_ = c_seq.moment(2, (s2_, s1_), end_time=3 * T + 1.0, center=False)
+    checks.append(('SumReward([H]) at the end time T', v1_, d.moment(1, end_time=T), 1e-10))
+    checks.append(('SumReward([H, L]) at a later end time on the same Coalescent (after SumReward([H]))', v2_,
+                   d.moment(1, end_time=2 * T + 0.5) + L.moment(1, end_time=2 * T + 0.5), 1e-10))
+    f3_ = build.coalescent(spec).moment(2, (s2_, s1_), end_time=3 * T + 1.0, center=False)
+    checks.append(('second cross moment of SumReward([H, L]) and SumReward([H]) after both were used alone vs a fresh Coalescent', v3_, f3_, 1e-10))
     # an end time on the call overrides the one on the object, in both directions
     for T0 in (T / 2, 2 * T + 0.25):
         o0 = build.coalescent(dict(spec, end_time=T0))
